@@ -465,6 +465,154 @@ func c07verdict(e *vrt.Exec) {
 	}
 }
 
+// c07pendingAcrossReconnect: a request is pending when the connection is lost; the client connects again (the
+// session is resumed) and the server answers the request then. The request is still pending - its context is
+// alive - so the answer belongs to its caller.
+func c07pendingAcrossReconnect(viaResume bool) func() {
+	return func() {
+		vrt.Quiet(true)
+		s := newSess(sessOpts{sm: true, smResume: true, keepalive: 3600})
+		if s.cl == nil {
+			return
+		}
+		if err := s.cl.Connect(); err != nil {
+			vrt.Fail("C07|harness|connect", "%v", err)
+			return
+		}
+		vrt.WaitIdle()
+		vrt.Quiet(false)
+		var got []string
+		closed, done := false, false
+		vrt.Go("caller", func() {
+			ctx, cancel := vrt.WithTimeout(vrt.Background(), 60*time.Second)
+			defer cancel()
+			iq, _ := stanza.NewIQ(stanza.Attrs{Type: stanza.IQTypeGet, Id: "pend1", To: "example.org"})
+			iq.Payload = &stanza.DiscoInfo{}
+			ch, err := s.cl.SendIQ(ctx, iq)
+			if err != nil {
+				vrt.Fail("C07|sendiq-error", "%v", err)
+				return
+			}
+			for {
+				c0 := vrt.RecvCase((<-chan stanza.IQ)(ch))
+				c1 := vrt.RecvCase(ctx.Done())
+				if vrt.Select(false, c0, c1) != 0 {
+					break
+				}
+				if !c0.Ok {
+					closed = true
+					break
+				}
+				got = append(got, c0.Val.Id)
+			}
+			done = true
+		})
+		vrt.WaitIdle()
+		s.conn(0).close()
+		vrt.WaitIdle()
+		var err error
+		if viaResume {
+			err = s.cl.Resume()
+		} else {
+			err = s.cl.Connect()
+		}
+		if err != nil {
+			vrt.Fail("C07|harness|reconnect", "%v", err)
+			return
+		}
+		vrt.WaitIdle()
+		if c1 := s.conn(1); c1 != nil {
+			c1.send("<iq type='result' id='pend1' from='example.org'/>")
+		}
+		vrt.WaitIdle()
+		vrt.Quiet(true)
+		vrt.Sleep(100 * time.Second)
+		vrt.WaitIdle()
+		desc := fmt.Sprintf("request pending, connection lost, client connects again (Resume=%v), the server answers on the new connection", viaResume)
+		if !done {
+			vrt.Fail("C07|hang", "%s: the caller never finished", desc)
+		}
+		if len(got) != 1 || got[0] != "pend1" || !closed {
+			vrt.Fail("C07|response-not-delivered|client|after-reconnect", "%s: the caller got %v (channel closed after delivery: %v); ordinary routes got %v", desc, got, closed, s.routed)
+		}
+		for _, r := range s.routed {
+			if strings.HasPrefix(r, "iq:pend1") {
+				vrt.Fail("C07|response-to-ordinary-route|client|after-reconnect", "%s: the response went to the ordinary routes: %v", desc, s.routed)
+			}
+		}
+	}
+}
+
+// c07manyHandlers: n stanzas arrive at once and the handler of each asks the server something (SendIQ) and waits
+// for the answer; the server answers once it has read all n requests. However many handlers wait at the same time,
+// packet processing goes on: every one of them gets its answer.
+func c07manyHandlers(n int) func() {
+	return func() {
+		vrt.Quiet(true)
+		answered := 0
+		s := newSess(sessOpts{keepalive: 3600, noCatchAll: true, served: func(sc *srvConn, r *negRec) {
+			var sb strings.Builder
+			for i := 0; i < n; i++ {
+				fmt.Fprintf(&sb, "<message from='peer@example.org' id='in%d'><body>x</body></message>", i)
+			}
+			seenPresence := false
+			var ids []string
+			for {
+				u := sc.read()
+				if u.kind == "eof" || u.kind == "close" || vrt.Killed() {
+					return
+				}
+				if u.kind == "element" && u.name == "presence" && !seenPresence {
+					seenPresence = true
+					sc.send(sb.String())
+				}
+				if u.kind == "element" && u.name == "iq" && attr(u.raw, "type") == "get" {
+					ids = append(ids, attr(u.raw, "id"))
+					if len(ids) == n {
+						var ab strings.Builder
+						for _, id := range ids {
+							fmt.Fprintf(&ab, "<iq type='result' id='%s' from='example.org'/>", id)
+						}
+						sc.send(ab.String())
+					}
+				}
+			}
+		}})
+		if s.cl == nil {
+			return
+		}
+		s.router.NewRoute().Packet("message").HandlerFunc(func(sd Sender, p stanza.Packet) {
+			m, ok := p.(stanza.Message)
+			if !ok {
+				return
+			}
+			ctx, cancel := vrt.WithTimeout(vrt.Background(), 60*time.Second)
+			defer cancel()
+			iq, _ := stanza.NewIQ(stanza.Attrs{Type: stanza.IQTypeGet, Id: "ask-" + m.Id, To: "example.org"})
+			iq.Payload = &stanza.DiscoInfo{}
+			ch, err := sd.SendIQ(ctx, iq)
+			if err != nil {
+				return
+			}
+			c0 := vrt.RecvCase((<-chan stanza.IQ)(ch))
+			c1 := vrt.RecvCase(ctx.Done())
+			if vrt.Select(false, c0, c1) == 0 && c0.Ok && c0.Val.Id == "ask-"+m.Id {
+				answered++
+			}
+		})
+		if err := s.cl.Connect(); err != nil {
+			vrt.Fail("C07|harness|connect", "%v", err)
+			return
+		}
+		vrt.WaitIdle()
+		vrt.Sleep(200 * time.Second)
+		vrt.WaitIdle()
+		if answered != n {
+			vrt.Fail("C07|processing-blocked|client|many-handlers-waiting", "%d stanzas arrived at once, each handler sent a request and waited for its answer; the server answered all %d once it had read them all, but only %d handlers got their answer", n, n, answered)
+		}
+	}
+}
+
 func TestVerifC07(t *testing.T) {
 	bound := 2
 	if hx.Thorough() {
@@ -499,6 +647,12 @@ func TestVerifC07(t *testing.T) {
 	for _, p := range plans {
 		b := bound
 		scs = append(scs, hx.Scenario{Name: p.name(), Opt: vrt.Options{Bound: b, Horizon: 20000}, Body: c07body(p), Verdict: c07verdict})
+	}
+	for _, viaResume := range []bool{false, true} {
+		scs = append(scs, hx.Scenario{Name: fmt.Sprintf("client/pending-across-reconnect/resume=%v", viaResume), Opt: vrt.Options{Bound: 1, Horizon: 50000}, Body: c07pendingAcrossReconnect(viaResume), Verdict: c07verdict})
+	}
+	for _, n := range []int{3, 40} {
+		scs = append(scs, hx.Scenario{Name: fmt.Sprintf("client/many-handlers-waiting/n=%d", n), Opt: vrt.Options{Bound: 0, Horizon: 400000}, Body: c07manyHandlers(n), Verdict: c07verdict})
 	}
 	if hx.Main("C07", scs) == 2 {
 		t.Fatal("internal error")
